@@ -91,5 +91,25 @@ def run(ctx):
         check_variants_live(ctx, "SchemaComparisonErrorDetail", e, r"sbor::schema::schema_comparison", conditional=False)
     if not cand:
         ctx.ob("anchor|SchemaComparisonErrorDetail", False, "enum not found")
+    ctx.rule("argument origin in NumericValidation::compare (length validations delegate to it): the two orderings it computes compare "
+             "effective_min() with effective_min() and effective_max() with effective_max() — never the raw Option bounds, for which `None` "
+             "(unbounded) sorts below every Some and turns an added upper bound into a `Weakened` validation")
+    nc = [x for x in F.fns if re.search(r"type_validation::NumericValidation(<[^>]*>)?::compare$", x)]
+    ctx.ob("numeric-compare|anchor", len(nc) == 1, f"NumericValidation::compare: {len(nc)}")
+    for x in nc[:1]:
+        b = ctx.body(x)
+        cmps = b.calls(r"core::cmp::(Ord|PartialOrd)(<[^>]*>)?(>)?::(cmp|partial_cmp|lt|le|gt|ge)$")
+        pairs = []
+        for bb, t in cmps:
+            o0 = {y.rsplit("::", 1)[1] for y in origin_names(b, t["args"][0])}
+            o1 = {y.rsplit("::", 1)[1] for y in origin_names(b, t["args"][1])}
+            pairs.append((sorted(o0), sorted(o1)))
+        ok = len(pairs) >= 2 and all(p_[0] == p_[1] and p_[0] in (["effective_min"], ["effective_max"]) for p_ in pairs) and \
+            {tuple(p_[0]) for p_ in pairs} == {("effective_min",), ("effective_max",)}
+        ctx.ob("numeric-compare|compares-effective-bounds", ok, f"orderings computed over {pairs}", b.loc())
+    lc = [x for x in F.fns if re.search(r"type_validation::LengthValidation::compare$", x)]
+    for x in lc[:1]:
+        b = ctx.body(x)
+        ctx.ob("length-compare|delegates-to-numeric-compare", bool(b.calls(r"NumericValidation(<[^>]*>)?::compare$")), "LengthValidation::compare delegates to NumericValidation::compare", b.loc())
     ctx.assume("soundness proper (a reported extension / equality implies the payload-set relation) is semantic and NOT decided; only that every kind "
                "and every validation change has a rejecting path and that the verdict table is the declared one")
